@@ -107,7 +107,7 @@ func addTo(m map[uint64]map[ikey]*big.Rat, id uint64, k ikey, v *big.Rat) {
 }
 
 func (s *Sim) incPre() incPre {
-	p := incPre{T: s.Pool().GetLastLiquidityUpdate(), tick: s.Pool().GetCurrentTick(), pos: s.Positions()}
+	p := incPre{T: s.Pool().GetLastLiquidityUpdate(), tick: s.Pool().GetCurrentTick(), pos: s.ownJoinTimes(s.Positions())}
 	for a := 0; a < NActors; a++ {
 		p.bal[a] = map[string]*big.Int{}
 		for _, d := range IncDenoms {
@@ -280,6 +280,18 @@ func (l *IncLedger) reset(id uint64) {
 	delete(l.tol, id)
 }
 
+// ownJoinTimes replaces the join time the module stores with the one the harness recorded when the position was created
+// (a transfer keeps it): a position's age, which decides between collecting and forfeiting, is a fact of the history, not
+// something to be read back from the code under test.
+func (s *Sim) ownJoinTimes(pos []clmodel.Position) []clmodel.Position {
+	for i := range pos {
+		if k, ok := s.Known[pos[i].PositionId]; ok && !k.Join.IsZero() {
+			pos[i].JoinTime = k.Join
+		}
+	}
+	return pos
+}
+
 func joinOf(pos []clmodel.Position, id uint64) (clmodel.Position, bool) {
 	for _, p := range pos {
 		if p.PositionId == id {
@@ -412,7 +424,7 @@ func (s *Sim) incApply(rt *rapid.T, pre incPre, ev *Event) {
 func (s *Sim) CheckIncentiveLedger(rt *rapid.T) {
 	l := s.IncLedger.clone()
 	pool := s.Pool()
-	pos := s.Positions()
+	pos := s.ownJoinTimes(s.Positions())
 	now := s.C.Ctx.BlockTime()
 	if T := pool.GetLastLiquidityUpdate(); !T.IsZero() {
 		l.emit(s, T, now, pool.GetCurrentTick(), pos)
